@@ -112,6 +112,16 @@ def sym_roundtrip(inp, part):
     except Exception as e:  # noqa: BLE001
         raise Violation("decode-raises:%s" % type(e).__name__, "line %r: %s" % (line, str(e)[:200]))
     _cmp(m2, n, c, cmd, ack, t, p, "roundtrip")
+    # the application may do what it likes with a decoded message; decoding the same line again
+    # must still give the spelled values
+    m2.payload = "changed-by-the-application"
+    m2.command = 2
+    m2.node_id = 7
+    try:
+        m4 = schema.load(line)
+    except Exception as e:  # noqa: BLE001
+        raise Violation("decode-again-raises:%s" % type(e).__name__, "line %r: %s" % (line, str(e)[:200]))
+    _cmp(m4, n, c, cmd, ack, t, p, "decode-again")
     return ["roundtrip-ok", len(p)]
 
 
